@@ -297,3 +297,13 @@ def _canary_read_not_clamped():
 CANARIES = [("WideFifo: write validated by count although write_max_count is set", _canary_max_count_ignored),
             ("WideFifo: column pointer wrap off by one", _canary_column_wrap_off_by_one),
             ("WideFifo: read count not clamped to the available elements", _canary_read_not_clamped)]
+
+
+def _callers_items():
+    from transactron.lib import WideFifo
+
+    return [("WideFifo(2 bits, depth 4, read/write width 2)", lambda: WideFifo(2, 4, 2, 2), [("read", ["read"]), ("write", ["write"])], [("peek", ["peek"]), ("clear", ["clear"])])]
+
+
+from ..excl import install as _install  # noqa: E402
+_install(globals(), _callers_items())
